@@ -23,7 +23,36 @@ def resOf : Char → Option Res
 /-- `c` = SetContext(nil), a call outside the four the property is about: it has no result of its own and must not change
     what the settlement calls around it do, so it is dropped before the model and the monitor see the sequence -/
 def opsOf (s : String) : Option (List Op) :=
-  if s = "-" then some [] else (s.toList.filter (· != 'c')).mapM opOf
+  if s = "-" then some [] else (s.toList.filter (fun c => c != 'c' && c != 'O' && c != 'Q')).mapM opOf
+
+/-- `O` / `Q` (kind `copy` only): read `Acked()` / `Nacked()` of the ORIGINAL the copy was taken from (it was acked before the
+    copy was made). Whatever happens to the copy, the original stays as it was: acked channel closed, nacked channel open. -/
+def origExpected (c : Char) : Option Char := if c == 'O' then some 'c' else if c == 'Q' then some 'o' else none
+
+/-- model results with the expected reads of the original put back at their positions -/
+def weave (ops : List Char) (res : List Char) : List Char :=
+  match ops with
+  | [] => []
+  | o :: rest =>
+    if o == 'c' then weave rest res
+    else match origExpected o with
+      | some e => e :: weave rest res
+      | none => match res with
+        | r :: rs => r :: weave rest rs
+        | [] => []
+
+/-- splits an observation into the results of the four calls and the verdict on the reads of the original -/
+def unweave (ops : List Char) (obs : List Char) : List Char × Bool :=
+  match ops, obs with
+  | [], _ => ([], true)
+  | o :: rest, obs =>
+    if o == 'c' then unweave rest obs
+    else match obs with
+      | [] => ([], true)
+      | x :: xs =>
+        match origExpected o with
+        | some e => let (r, ok) := unweave rest xs; (r, ok && x == e)
+        | none => let (r, ok) := unweave rest xs; (x :: r, ok)
 
 def dash (s : String) : String := if s.isEmpty then "-" else s
 
@@ -65,11 +94,13 @@ def handle (line : String) : String :=
   match line.splitOn " " with
   | "M" :: "seq" :: k :: ops :: [] =>
     match kindOf k, opsOf ops with
-    | some k, some ops => dash (String.ofList ((run (initSt k) ops).2.map resChar))
+    | some k, some mops => dash (String.ofList (weave (if ops = "-" then [] else ops.toList) ((run (initSt k) mops).2.map resChar)))
     | _, _ => "bad-op"
   | "P" :: "seq" :: k :: ops :: "##" :: obs :: [] =>
     if obs.contains 'B' then "violated:never_blocks(a call did not return within the watchdog bound)" else
-    match kindOf k, opsOf ops, (if obs = "-" then some [] else obs.toList.mapM resOf) with
+    let (own, origOk) := unweave (if ops = "-" then [] else ops.toList) (if obs = "-" then [] else obs.toList)
+    if !origOk then "violated:settling_a_copy_changed_the_original" else
+    match kindOf k, opsOf ops, own.mapM resOf with
     | some k, some ops, some obs => monitor k ops obs
     | _, _, _ => "bad-op"
   -- `first`: the same calls as `seq`, made as the very first settlements of a fresh process while other goroutines settle
